@@ -33,7 +33,7 @@ type c20Case struct {
 	Recvs   []int  // after the k-th quiescent point the receiver performs Recvs[k] receives (0 = stays idle)
 	Ending  string // peer-finish | cancel
 	Heap    bool   // also bound the live heap of the stalled stream
-	Pending string `json:",omitempty"` // c2s on bidi: before stalling, the handler sends "header" or "message" which the client never reads
+	Pending string `json:",omitempty"` // c2s on bidi: before stalling, the handler sends "header" or "message" which the client never reads, or starts a "helper" goroutine that keeps sending
 	// CallOpts: the stream is opened with grpc.Header / grpc.Trailer / grpc.Peer call options (1 = header,
 	// 2 = trailer, 4 = peer, summed); options only say where results are to be stored
 	CallOpts int `json:",omitempty"`
@@ -155,6 +155,22 @@ func propC20(c c20Case) *Outcome {
 			stream.SendHeader(metadata.Pairs("zz-h", "1"))
 		case "message":
 			stream.SendMsg(&pb.Message{Count: -1})
+		case "helper":
+			// a helper goroutine of the handler pushes responses (a subscription); nobody reads them, so its second
+			// send parks - and is still parked when the handler itself returns
+			var helperSends atomic.Int32
+			go func() {
+				for i := 0; i < 3; i++ {
+					helperSends.Add(1)
+					if stream.SendMsg(&pb.Message{Count: -1}) != nil {
+						return
+					}
+				}
+			}()
+			for i := 0; i < 2000 && helperSends.Load() < 2; i++ {
+				time.Sleep(50 * time.Microsecond)
+			}
+			time.Sleep(2 * time.Millisecond) // its second send is under way: parked, nobody reads
 		}
 		close(hStarted)
 		for {
@@ -164,7 +180,11 @@ func propC20(c c20Case) *Outcome {
 			case <-hReturn:
 				if c.FinishErr {
 					// bails out with trailers and an error: more final frames than the one-message slot holds
-					stream.SetTrailer(metadata.Pairs("zz-t", "1"))
+					if c.Pending != "helper" {
+						// (with a helper goroutine parked in SendMsg the stream's own lock is taken: SetTrailer would
+						// wait for that send, which is the application's affair, not this property's)
+						stream.SetTrailer(metadata.Pairs("zz-t", "1"))
+					}
 					return status.Error(codes.Aborted, "handler gave up")
 				}
 				return nil
@@ -401,7 +421,7 @@ func genC20(t *rapid.T) c20Case {
 	c.RecvBlocked = c.Dir == "c2s" && c.Kind == kBidi && rapid.IntRange(0, 2).Draw(t, "recvblocked") == 0
 	c.CallOpts = rapid.SampledFrom([]int{0, 0, 0, 1, 1, 2, 3, 4, 7}).Draw(t, "callopts")
 	if c.Dir == "c2s" && c.Kind == kBidi {
-		c.Pending = rapid.SampledFrom([]string{"", "", "header", "message"}).Draw(t, "pending")
+		c.Pending = rapid.SampledFrom([]string{"", "", "header", "message", "helper"}).Draw(t, "pending")
 	}
 	if thorough() && rapid.IntRange(0, 9).Draw(t, "heap") == 0 {
 		c.Heap, c.Size, c.N = true, 1<<20, 48
